@@ -39,7 +39,7 @@ func c09Tables() [][]kv {
 
 func (c c09) Run(ctx *core.Ctx) error {
 	var cases []json.RawMessage
-	loaders := []string{"default"}
+	loaders := []string{"default", "disk"}
 	if ctx.Tier == "thorough" {
 		loaders = []string{"default", "skiplist", "map4", "disk"}
 	}
